@@ -422,7 +422,16 @@ def r9_size_accounting_is_not_on_the_trimmed_buffer(ctx):
     c07.r4_limit_before_read(ctx)
 
 
-RULES = [r9_size_accounting_is_not_on_the_trimmed_buffer, r1_gate, r2_chunk_independence, r3_is_json, r4_content_length_use, r5_loop_exits, r6_proxy_rewrites_only_what_it_proxies, r7_gate_is_the_only_gate, r8_body_reaches_read_body_untouched, rstatus_http_status_table]
+def r10_the_announced_size_is_gated_like_the_read_size(ctx):
+    """with or without Content-Length the same body gets the same answer: the up-front test on the announced size refuses
+    exactly what the Limited wrapper refuses while reading - more than the limit (`size > limit` / `size <= limit`). A
+    `<` there answers 413 to a body of exactly the limit when its length is announced and 200 when it is sent chunked
+    (= C07.R6)"""
+    from . import c07
+    c07.r6_size_gates(ctx)
+
+
+RULES = [r10_the_announced_size_is_gated_like_the_read_size, r9_size_accounting_is_not_on_the_trimmed_buffer, r1_gate, r2_chunk_independence, r3_is_json, r4_content_length_use, r5_loop_exits, r6_proxy_rewrites_only_what_it_proxies, r7_gate_is_the_only_gate, r8_body_reaches_read_body_untouched, rstatus_http_status_table]
 
 LEVEL_TEXT = (
     "Structural necessary conditions decided from the type-checked program: the method/content-type gate by dominance on "
